@@ -78,7 +78,7 @@ def load_known(pid):
     return [f for f in data.get("findings", []) if f.get("property") == pid and f.get("status") == "open"]
 
 
-def check_property(pid, tier, seed):
+def check_property(pid, tier, seed, extra=None):
     t_start = time.time()
     prop = PROPS[pid]
     from vf.registry import REG
@@ -90,10 +90,24 @@ def check_property(pid, tier, seed):
             if k not in before:
                 by_mod[k] = mod
     hs = [h for h in REG.values() if tier in h.tiers and h.key in by_mod]
-    if not hs:
+    if not hs and extra is None:
         print("CANNOT-ENCODE property=%s no harness registered for tier %s" % (pid, tier))
         return 2
     known = load_known(pid)
+    extra_results = []
+    extra_thread = None
+    if extra is not None:
+        import threading
+
+        def _run_extra():
+            try:
+                extra_results.extend(extra())
+            except Exception as e:  # an engine crash of the z3 stage is a harness error, never a pass
+                import traceback as _tb
+                extra_results.append({"key": "stage", "verdict": "error", "message": "stage crashed: %r %s" % (e, _tb.format_exc()[-800:]),
+                                      "bounds": "", "encodes": []})
+        extra_thread = threading.Thread(target=_run_extra)
+        extra_thread.start()
     jobs = int(os.environ.get("VERIF_JOBS", "14"))
     scale = float(os.environ.get("VERIF_TIMEOUT_SCALE", "1.0"))
     results = {}
@@ -185,6 +199,37 @@ def check_property(pid, tier, seed):
         else:
             mismatches.append((h.key, "worker error: %s %s" % (r.get("message"), (r.get("traceback") or r.get("stderr") or "")[-600:])))
 
+    # 4b. results of the z3 stage (E2), same triage
+    if extra_thread is not None:
+        extra_thread.join()
+    os.makedirs(os.path.join(ROOT, "replays", pid), exist_ok=True)
+    stage_samples = []
+    for r in extra_results:
+        v = r.get("verdict")
+        if v == "info":
+            stage_samples.append(r)
+            continue
+        for line in r.get("known_lines", []):
+            if line not in known_lines:
+                known_lines.append(line)
+        stage_samples.append({"harness": r["key"], "bounds": r.get("bounds"), "verdict": v, "queries": r.get("solver_checks"),
+                              "solver_s": r.get("solver_s"), "witness": r.get("witness"), "message": r.get("message"),
+                              "translator_validation": r.get("translator_validation")})
+        if v == "confirmed":
+            confirmed.append(r["key"])
+        elif v == "unknown":
+            inconclusive.append(r["key"])
+            print("INCONCLUSIVE harness=%s %s" % (r["key"], r.get("message")))
+        elif v == "refuted":
+            path = os.path.join(ROOT, "replays", pid, r["key"].replace("/", "_") + ".json")
+            json.dump({"property": pid, "stage": "z3", "harness": r["key"], "witness": r.get("witness"), "message": r.get("message"),
+                       "replay": r.get("replay")}, open(path, "w"), indent=1)
+            if (r.get("replay") or {}).get("reproduced"):
+                violations.append((r["key"], path, r.get("message")))
+            else:
+                mismatches.append((r["key"], "z3 witness does not replay on the real code: %s" % r.get("message")))
+        else:
+            mismatches.append((r["key"], r.get("message")))
     for line in known_lines:
         print(line)
     for k in stale:
@@ -205,6 +250,10 @@ def check_property(pid, tier, seed):
         for q in h.encodes:
             if q not in enc:
                 enc[q] = _sha(_resolve(q))
+    for r in extra_results:
+        for q in r.get("encodes", []) or []:
+            if q not in enc:
+                enc[q] = _sha(_resolve(q))
     samples = []
     for h in hs:
         r = results[h.key]
@@ -213,7 +262,10 @@ def check_property(pid, tier, seed):
                         "solver_s": r.get("solver_s"), "cpu_s": r.get("cpu_s"), "budget_s": h.timeout,
                         "excluded_known": active_excl.get(h.key, []),
                         "counterexample": r.get("call"), "twin": twins.get(h.key, {}).get("verdict")})
-    total_paths = sum(int(results[h.key].get("paths") or 0) for h in hs)
+    total_paths = sum(int(results[h.key].get("paths") or 0) for h in hs) + sum(int(r.get("paths") or 0) for r in extra_results)
+    for r in extra_results:
+        for q in r.get("encodes", []) or []:
+            pass
     ev = {
         "property_id": pid, "tier": tier, "seed": seed, "level": prop["level"],
         "coverage": {
@@ -222,14 +274,14 @@ def check_property(pid, tier, seed):
             "rule": "one evaluation = one symbolic execution path of a harness through the real code, each branch decided by z3; "
                     "distinct_nontrivial = harnesses whose postcondition was confirmed over ALL paths within the stated bounds and "
                     "reached on at least one path satisfying the precondition (vacuity witness)",
-            "samples": samples,
-            "obligations": len(hs), "discharged": len(confirmed), "inconclusive": inconclusive,
+            "samples": samples + stage_samples,
+            "obligations": len(hs) + len([r for r in extra_results if r.get("verdict") != "info"]), "discharged": len(confirmed), "inconclusive": inconclusive,
             "core_obligations": len(core), "core_decided": len(decided),
             "known_findings_reproduced": [l for l in known_lines], "violations": [v[0] for v in violations],
             "engine_mismatches": [m[0] for m in mismatches],
             "functions_encoded": [{"name": q, "source_sha1": s} for q, s in sorted(enc.items())],
-            "queries_discharged": sum(int(results[h.key].get("solver_checks") or 0) for h in hs),
-            "solver_time_s": round(sum(float(results[h.key].get("solver_s") or 0) for h in hs), 2),
+            "queries_discharged": sum(int(results[h.key].get("solver_checks") or 0) for h in hs) + sum(int(r.get("solver_checks") or 0) for r in extra_results),
+            "solver_time_s": round(sum(float(results[h.key].get("solver_s") or 0) for h in hs) + sum(float(r.get("solver_s") or 0) for r in extra_results), 2),
             "engine": "crosshair-tool 0.0.110 + z3 %s" % _z3v(),
             "explanation": prop.get("explanation", ""),
             "exhaustive": False,
@@ -244,7 +296,7 @@ def check_property(pid, tier, seed):
     os.makedirs(os.path.join(ROOT, "evidence"), exist_ok=True)
     json.dump(ev, open(os.path.join(ROOT, "evidence", pid + ".json"), "w"), indent=1, default=str)
     print("%s property=%s tier=%s harnesses=%d confirmed=%d inconclusive=%d known=%d violations=%d mismatches=%d paths=%d wall=%.0fs"
-          % ("OK" if rc == 0 else "FAIL", pid, tier, len(hs), len(confirmed), len(inconclusive), len(known_lines),
+          % ("OK" if rc == 0 else "FAIL", pid, tier, len(hs) + len([r for r in extra_results if r.get("verdict") != "info"]), len(confirmed), len(inconclusive), len(known_lines),
              len(violations), len(mismatches), total_paths, time.time() - t_start))
     return rc
 
